@@ -292,6 +292,9 @@ Proof.
     split; intros Q.
     + unfold hint_tie in TIE. rewrite Q in TIE. discriminate.
     + rewrite asel_insert_at, HK, mk_anode_sel by auto. apply ssortedb_ok. exact SB.
+  - pose proof (G x) as Gx. destruct (sget s x) as [[k l]|]; cbn [snd]; auto.
+    destruct (out_idx k (length l) i r) as [[j|]|]; cbn [snd]; auto.
+    destruct (j <? length l)%nat; cbn [snd]; auto. apply Forall_set_at; auto. apply keys_ok_remove_at. auto.
 Qed.
 
 Lemma swf_init n : swf (sinit n).
